@@ -44,3 +44,11 @@ package partitions
 //@   trusted
 //@   requires #inv: ps.inv() && ps.count > 0
 //@   modifies nothing
+
+// Owner panics on a partition without owners; after bootstrap every partition has one (structural assumption,
+// the routing table push establishes it - see routingtable contracts).
+//@ func (p *Partition) Owner() discovery.Member
+//@   props C15 C13
+//@   trusted
+//@   requires #recv: p != nil
+//@   modifies nothing
